@@ -676,6 +676,11 @@ func (pace *Pace) loadCardSecurityFile() error {
 		return fmt.Errorf("[loadCardSecurityFile] NewCardSecurity error: %w", err)
 	}
 
+	// the chip may report the file as not found (no data, no error above)
+	if pace.document.Mf.CardSecurity == nil {
+		return fmt.Errorf("[loadCardSecurityFile] EF.CardSecurity is missing")
+	}
+
 	return nil
 }
 
